@@ -177,6 +177,8 @@ fn collect_types_to_bind(
     let types_from_fields = |fields: &Punctuated<syn::Field, _>| -> Vec<(Type, bool)> {
         fields
             .iter()
+            // Skipped fields are not part of the type info, so they need no bounds.
+            .filter(|field| !utils::should_skip(&field.attrs))
             .filter(|field| {
                 // Only add a bound if the type uses a generic.
                 type_contains_idents(&field.ty, ty_params)
@@ -201,6 +203,7 @@ fn collect_types_to_bind(
         syn::Data::Enum(ref data) => data
             .variants
             .iter()
+            .filter(|variant| !utils::should_skip(&variant.attrs))
             .flat_map(|variant| match &variant.fields {
                 syn::Fields::Named(syn::FieldsNamed { named: fields, .. })
                 | syn::Fields::Unnamed(syn::FieldsUnnamed {
